@@ -59,7 +59,7 @@ func loadRepoWarriors() []string {
 	return repoWarriors
 }
 
-var concCfg = gen.AsmConfig{CoreSize: 8000, Length: 100, Distance: 100, Processes: 64}
+var concCfg = gen.AsmConfig{CoreSize: 8000, Length: 100, Distance: 100, Processes: 64, NoConstCounts: true} // the job sets assemble one text under configurations that differ in the high bits of their values
 
 func genConcCase(t *rapid.T) concCase {
 	var c concCase
@@ -458,6 +458,7 @@ type ilvCase struct {
 	Cfg   simCfg
 	Sims  []battleCase // only Ws and Offs are used; every simulator shares Cfg
 	Sched []ilvOp
+	Ps    []int `json:",omitempty"` // process limit of each simulator where it differs from Cfg.P (0: the shared one)
 }
 
 func genIlvCase(t *rapid.T) ilvCase {
@@ -480,11 +481,20 @@ func genIlvCase(t *rapid.T) ilvCase {
 		}
 		c.Sims = append(c.Sims, battleCase{Ws: b.Ws, Offs: b.Offs})
 	}
+	if rapid.Bool().Draw(t, "ownlimits") {
+		// simulators of one process with process limits of their own: nothing one of them has
+		// used may carry its limit over to another
+		for i := 0; i < n; i++ {
+			c.Ps = append(c.Ps, rapid.SampledFrom([]int{0, 1, 2, 3, 5, 17, 64}).Draw(t, "ownp"))
+		}
+	}
 	ns := rapid.IntRange(4, 40).Draw(t, "nsched")
 	for i := 0; i < ns; i++ {
 		op := ilvOp{S: rapid.IntRange(0, n-1).Draw(t, "s")}
-		if rapid.IntRange(0, 3).Draw(t, "op") == 0 {
+		if k := rapid.IntRange(0, 7).Draw(t, "op"); k <= 1 {
 			op.Op = 1
+		} else if k == 2 {
+			op.Op = 2
 		} else {
 			op.N = rapid.IntRange(1, 6).Draw(t, "n")
 		}
@@ -504,16 +514,20 @@ func judgeIlvCase(c ilvCase, rec *hx.Rec) string {
 		spawned bool
 	}
 	var sims []*one
-	for _, bc := range c.Sims {
-		bc.Cfg = c.Cfg
+	for si, bc := range c.Sims {
+		cfg := c.Cfg
+		if si < len(c.Ps) && c.Ps[si] > 0 && c.Ps[si] <= 1<<20 {
+			cfg.P = c.Ps[si]
+		}
+		bc.Cfg = cfg
 		if malformedBattle(bc) {
 			return "malformed case"
 		}
-		sim, err := gmars.NewSimulator(c.Cfg.G())
+		sim, err := gmars.NewSimulator(cfg.G())
 		if err != nil {
 			return err.Error()
 		}
-		o := &one{sim: sim, b: ref.NewBattle(c.Cfg.M, c.Cfg.R, c.Cfg.W, c.Cfg.P, c.Cfg.Cycles)}
+		o := &one{sim: sim, b: ref.NewBattle(cfg.M, cfg.R, cfg.W, cfg.P, cfg.Cycles)}
 		for _, w := range bc.Ws {
 			gw, _ := sim.AddWarrior(hx.WarriorToG(w))
 			o.ws = append(o.ws, gw)
@@ -527,7 +541,15 @@ func judgeIlvCase(c ilvCase, rec *hx.Rec) string {
 			return "malformed case"
 		}
 		o := sims[op.S]
-		if op.Op == 1 {
+		if op.Op == 2 {
+			// reset only: what the simulator gives back stays unused until somebody spawns
+			if o.spawned {
+				o.sim.Reset()
+				o.b.Reset()
+				resets++
+				o.spawned = false
+			}
+		} else if op.Op == 1 {
 			if o.spawned {
 				o.sim.Reset()
 				o.b.Reset()
@@ -570,14 +592,6 @@ func judgeIlvCase(c ilvCase, rec *hx.Rec) string {
 		rec.Case(resets > 0 && deaths > 0, hx.HashJSON(c), func() any { return map[string]any{"cfg": c.Cfg, "sims": len(c.Sims), "schedule": c.Sched} }, cl...)
 	}
 	return ""
-}
-
-func TestC14_Interleaved(t *testing.T) {
-	hx.Run(t, hx.Prop[ilvCase]{
-		ID: "C14", Sub: "interleaved", Checks: hx.Scale(2500, 400000),
-		Rule: "isolation between simulators of one process: 2..3 simulators with the same configuration are used in turns by one thread (spawn, run 1..6 cycles, reset and spawn again, in a generated schedule); after every step every simulator must agree with its own reference model (core, queues, flags, counters), so state recycled or shared between simulators shows. Non-trivial: the schedule contains a reset-and-respawn and a death; distinct by case hash.",
-		Gen:  genIlvCase, Judge: judgeIlvCase,
-	})
 }
 
 // ---- the same text under the same configuration always assembles to the same result
